@@ -135,7 +135,7 @@ func malformRaw(r *RNG, p *tak.Position) (tak.VerifRaw, string, int) {
 }
 
 func genFNPOS(c *Ctx) {
-	n := c.Scale(2500, 250000)
+	n := c.Scale(1500, 250000)
 	for k := 0; k < n; k++ {
 		p := randomPosition(c.R)
 		if p == nil {
